@@ -370,6 +370,10 @@ let run (op : string) (args : sx list) : sx =
            | RDecRecipient -> ":d-r" | RDecRecipientsFile -> ":d-R" | REncIdentityWithoutE -> ":i-without-e"
            | REncMissingRecipients -> ":missing-recipients" | REncPassWithRecipient -> ":p-r"
            | REncPassWithRecipientsFile -> ":p-R" | REncPassWithIdentity -> ":p-i")])
+  (* exec.LookPath over PATH entries given as (absolute? has-the-program?) pairs: index of the entry that runs *)
+  | "lookpath", [entries] ->
+      let path = list_of (function L [a; h] -> { pe_abs = bool_of a; pe_has = bool_of h } | x -> failwith (show x)) entries in
+      (match executed path with Some i -> L [A ":run"; si (int_of_nat i)] | None -> A ":none")
   | "cli_keygen", [prev; d; k] ->
       let ((ok, f), mode) = keygen_cli (fstate_of prev) (dev_of d) (bytes_of k) in
       L [sbool ok; fstate_sx f; (match mode with None -> A ":none" | Some m -> si (int_of_n m))]
